@@ -9,6 +9,7 @@ import (
 	"os"
 	"path/filepath"
 	"strings"
+	"time"
 
 	"verif/host"
 	"verif/model"
@@ -200,9 +201,9 @@ func C05(e *Env) {
 		list = append(list, sess{ti, reqs, tags, P})
 	}
 	// a worker with a short read timeout: uploads stalled in the middle of a payload are cut by it
-	pto := e.Worker(worker.Config{Root: root, AllowWrite: true, BufSize: 65536, ReadTimeoutMs: 200}, "c05-timeout", false, 0)
+	pto := e.Worker(worker.Config{Root: root, AllowWrite: true, BufSize: 65536, ReadTimeoutMs: 2000}, "c05-timeout", false, 0)
 	defer pto.Stop()
-	targets = append(targets, target{pto, mkWorld(pto.HostPort(), true), "lib allow_write=true read-timeout=200ms"})
+	targets = append(targets, target{pto, mkWorld(pto.HostPort(), true), "lib allow_write=true read-timeout=2s"})
 	for i := range list {
 		if i%9 == 4 {
 			list[i].tgt = len(targets) - 1
@@ -251,8 +252,22 @@ func C05(e *Env) {
 		// some sessions deliver every request in small pieces (a path split over several segments must
 		// still be acted on as a whole)
 		chunk := []int{0, 0, 0, 1, 7, 19}[i%6]
-		res := RunLockstep(t.p.HostPort(), &w, s.reqs, e.Watchdog, chunk, false)
+		// on the target with a read timeout the harness itself must not be the idle party: the time from
+		// one answer to the end of the next step is watched, and a session that was cut after the harness
+		// stalled (loaded machine) is no verdict
+		var lastEnd time.Time
+		var maxGap time.Duration
+		res := RunLockstepOpt(t.p.HostPort(), &w, s.reqs, e.Watchdog, LockOpt{Chunk: chunk, OnStep: func(_ int, _ wire.Req, t0, t1 time.Time) {
+			if !lastEnd.IsZero() && t1.Sub(lastEnd) > maxGap {
+				maxGap = t1.Sub(lastEnd)
+			}
+			lastEnd = t1
+		}})
 		run.Eval(1)
+		if res.Fail != nil && strings.Contains(t.name, "read-timeout") && maxGap > 1200*time.Millisecond {
+			run.Inconclusive(fmt.Sprintf("session on the read-timeout target: the harness took %v for one step", maxGap))
+			return
+		}
 		if res.Fail != nil {
 			wit := map[string]any{"target": t.name, "private_dir": s.P, "tags": s.tags, "requests": reqStrings(s.reqs), "failed_at": res.FailAt, "failed_request": reqAt(s.reqs, res.FailAt), "transcript": tailStr(res.Log, 14)}
 			if res.Oracle != nil {
